@@ -21,6 +21,18 @@ Proof.
   apply bpow_lt. lia.
 Qed.
 
+Lemma bpow1024_big64 : IZR (2 ^ 64) < bpow radix2 1024.
+Proof.
+  change (2 ^ 64)%Z with (Zpower radix2 64). rewrite IZR_Zpower by lia.
+  apply bpow_lt. lia.
+Qed.
+
+Lemma format_two63 : generic_format radix2 fexp64 (IZR (2 ^ 63)).
+Proof.
+  change (2 ^ 63)%Z with (Zpower radix2 63). rewrite IZR_Zpower by lia.
+  apply generic_format_bpow. unfold SpecFloat.fexp, SpecFloat.emin. simpl. lia.
+Qed.
+
 Lemma format_b2r : forall f : f64, generic_format radix2 fexp64 (b2r f).
 Proof. intro f. apply generic_format_B2R. Qed.
 
@@ -67,6 +79,41 @@ Proof.
     + apply Rlt_trans with (IZR (2 ^ 60)). apply IZR_lt; lia. apply bpow1024_big.
 Qed.
 
+(* float64(z) for every int64 z: the correctly rounded value, finite, |.| <= 2^63 *)
+Lemma f64_of_int_round :
+  forall z : Z, in_int64 z = true ->
+  b2r (f64_of_int z) = rnd64 (IZR z) /\ fin (f64_of_int z) = true /\
+  Rabs (b2r (f64_of_int z)) <= IZR (2 ^ 63).
+Proof.
+  intros z Hz. unfold f64_of_int.
+  assert (Hr : (Z.abs z <= 2 ^ 63)%Z).
+  { unfold in_int64, min_int64, max_int64, two63 in Hz. apply andb_true_iff in Hz.
+    destruct Hz as [A B]. apply Z.leb_le in A, B. lia. }
+  generalize (binary_normalize_correct 53 1024 _ _ mode_NE z 0 false).
+  cbv zeta.
+  assert (Hx : F2R (Float radix2 z 0) = IZR z) by (unfold F2R; simpl; ring).
+  rewrite Hx.
+  assert (Hb : Rabs (rnd64 (IZR z)) <= IZR (2 ^ 63)).
+  { apply abs_round_le_generic; auto with typeclass_instances.
+    - apply format_two63.
+    - rewrite <- abs_IZR. now apply IZR_le. }
+  rewrite Rlt_bool_true.
+  - intros (H1 & H2 & _). rewrite H1. auto.
+  - apply Rle_lt_trans with (1 := Hb).
+    apply Rlt_trans with (IZR (2 ^ 64)). apply IZR_lt; lia. apply bpow1024_big64.
+Qed.
+
+(* a float below the rounding of x is not above x *)
+Lemma float_lt_round_le :
+  forall (b : f64) (x : R), b2r b < rnd64 x -> b2r b <= x.
+Proof.
+  intros b x H. destruct (Rle_or_lt (b2r b) x) as [L | G]; [exact L |].
+  exfalso. apply (Rlt_irrefl (b2r b)). apply Rlt_le_trans with (1 := H).
+  rewrite <- (round_generic radix2 fexp64 (round_mode mode_NE) (b2r b)) at 1.
+  - apply round_le; auto with typeclass_instances. lra.
+  - apply format_b2r.
+Qed.
+
 Lemma b2r_1_5 : b2r f64_1_5 = 1.5.
 Proof. unfold f64_1_5, BinarySingleNaN.B2R, F2R. simpl. lra. Qed.
 
@@ -95,6 +142,14 @@ Proof.
   case Rcompare_spec; intro H; case Rle_bool_spec; intro H'; try reflexivity; lra.
 Qed.
 
+Lemma f64_ge_spec :
+  forall a b : f64, fin a = true -> fin b = true ->
+  f64_ge a b = Rle_bool (b2r b) (b2r a).
+Proof.
+  intros a b Ha Hb. unfold f64_ge. rewrite Bcompare_correct by assumption.
+  case Rcompare_spec; intro H; case Rle_bool_spec; intro H'; try reflexivity; lra.
+Qed.
+
 (* a finite comparison that says "true" needs finite, ordered arguments on
    the left-hand side at least when the right-hand side is finite *)
 Lemma f64_le_finite_l :
@@ -104,9 +159,9 @@ Proof.
   unfold f64_le, BinarySingleNaN.Bcompare in H. destruct a; simpl in H; discriminate.
 Qed.
 
-(* x * 1.5 for 0 <= x <= 2^53 *)
+(* x * 1.5 for 0 <= x <= 2^63 *)
 Lemma mul15_correct :
-  forall f : f64, fin f = true -> 0 <= b2r f <= IZR (2 ^ 53) ->
+  forall f : f64, fin f = true -> 0 <= b2r f <= IZR (2 ^ 63) ->
   let f' := f64_mul f f64_1_5 in
   fin f' = true /\ b2r f' = rnd64 (b2r f * 1.5) /\ b2r f <= b2r f'.
 Proof.
@@ -117,11 +172,11 @@ Proof.
   { rewrite <- (round_generic radix2 fexp64 (round_mode mode_NE) (b2r f)) at 1.
     - apply round_le; auto with typeclass_instances. lra.
     - apply format_b2r. }
-  assert (Hub : rnd64 (b2r f * 1.5) <= IZR (2 ^ 54)).
-  { rewrite <- (round_generic radix2 fexp64 (round_mode mode_NE) (IZR (2 ^ 54))).
+  assert (Hub : rnd64 (b2r f * 1.5) <= IZR (2 ^ 64)).
+  { rewrite <- (round_generic radix2 fexp64 (round_mode mode_NE) (IZR (2 ^ 64))).
     - apply round_le; auto with typeclass_instances.
-      change (2 ^ 54)%Z with (2 * 2 ^ 53)%Z. rewrite mult_IZR. lra.
-    - change (2 ^ 54)%Z with (Zpower radix2 54). rewrite IZR_Zpower by lia.
+      change (2 ^ 64)%Z with (2 * 2 ^ 63)%Z. rewrite mult_IZR. lra.
+    - change (2 ^ 64)%Z with (Zpower radix2 64). rewrite IZR_Zpower by lia.
       apply generic_format_bpow. unfold SpecFloat.fexp, SpecFloat.emin. simpl. lia. }
   rewrite Rlt_bool_true.
   - intros (A & B & _). fold (f64_mul f f64_1_5) in A, B. fold f' in A, B.
@@ -129,8 +184,7 @@ Proof.
     split. { exact A. }
     rewrite A. exact Hle.
   - rewrite Rabs_pos_eq by lra.
-    apply Rle_lt_trans with (1 := Hub).
-    apply Rlt_trans with (IZR (2 ^ 60)). apply IZR_lt; lia. apply bpow1024_big.
+    apply Rle_lt_trans with (1 := Hub). apply bpow1024_big64.
 Qed.
 
 (* int64(f) *)
